@@ -131,6 +131,37 @@ def landAll (xs : List Int) : Int := xs.foldl land (-1)
 def lorAll (xs : List Int) : Int := xs.foldl lor 0
 def lxorAll (xs : List Int) : Int := xs.foldl lxor 0
 
+/-! ### integer-length, logcount, logbitp, evenp/oddp, signum, numerator/denominator -/
+
+/-- number of binary digits of a natural number (0 for 0) -/
+def bitLen (n : Nat) : Nat := if n = 0 then 0 else Nat.log2 n + 1
+
+/-- `(integer-length n)`: digits of `n`, of `-n-1` for a negative `n` (two's complement without sign) -/
+def integerLength (n : Int) : Int :=
+  if n < 0 then ((bitLen (-n - 1).toNat : Nat) : Int) else ((bitLen n.toNat : Nat) : Int)
+
+/-- number of 1 bits of a natural number -/
+def popCount (n : Nat) : Nat :=
+  if h : n = 0 then 0 else n % 2 + popCount (n / 2)
+decreasing_by omega
+
+/-- `(logcount n)`: the 1 bits of a non-negative integer, the 0 bits of a negative one -/
+def logcount (n : Int) : Int :=
+  if n < 0 then ((popCount (-n - 1).toNat : Nat) : Int) else ((popCount n.toNat : Nat) : Int)
+
+/-- `(logbitp i n)`: bit `i` of the infinite two's-complement expansion; a negative index is rejected -/
+def logbitp (i n : Int) : Except Err Bool :=
+  if i < 0 then .error .typeErr else .ok (testBit n i.toNat)
+
+def evenp (n : Int) : Bool := n % 2 == 0
+def oddp (n : Int) : Bool := n % 2 == 1
+
+/-- `(signum r)` of a rational: -1, 0 or 1 -/
+def signum (r : Rat) : Int := if r < 0 then -1 else if r = 0 then 0 else 1
+
+def numerator (r : Rat) : Int := r.num
+def denominator (r : Rat) : Int := (r.den : Int)
+
 /-! ### comparisons (on exact values; floats are decoded to exact rationals first) -/
 
 def chain (rel : Rat → Rat → Bool) : List Rat → Bool
@@ -230,6 +261,47 @@ def negFix (a : Int) : Int := wrap64 (-a)
 /-- Go's truncated `/` and `%` on int64 (divisor non-zero); `/` wraps for MinInt64 / -1 -/
 def quoFix (a b : Int) : Int := wrap64 (Int.tdiv a b)
 def remFix (a b : Int) : Int := Int.tmod a b
+
+/-- Go's `x << k` on int64 (any count: counts ≥ 64 give 0, which is `wrap64` of a multiple of 2^64) -/
+def shlFix (a k : Int) : Int := wrap64 (a * 2 ^ k.toNat)
+/-- Go's arithmetic `x >> k` on int64 (counts ≥ 64 leave only the sign: 0 or -1) -/
+def shrFix (a k : Int) : Int := a >>> k.toNat
+
+/-- `uint64(x)` of an int64: the residue modulo 2^64 -/
+def toU64 (a : Int) : Int := a % 18446744073709551616
+/-- `int64(u)` of a uint64 -/
+def ofU64 (u : Int) : Int := wrap64 u
+/-- `^u` on uint64 -/
+def notU (u : Int) : Int := 18446744073709551615 - u
+def andU (a b : Int) : Int := ((a.toNat &&& b.toNat : Nat) : Int)
+def orU (a b : Int) : Int := ((a.toNat ||| b.toNat : Nat) : Int)
+def xorU (a b : Int) : Int := ((a.toNat ^^^ b.toNat : Nat) : Int)
+def shlU (a k : Int) : Int := (a * 2 ^ k.toNat) % 18446744073709551616
+def shrU (a k : Int) : Int := a / 2 ^ k.toNat
+
+/-- `big.Rat.Cmp` (and the meaning of `compareReals` on exact values): the sign of `a - b` -/
+def cmpRat (a b : Rat) : Int := if a < b then -1 else if a = b then 0 else 1
+
+/-- the loop of `<`, `<=`, `>`, `>=` (pkg/cl/lt.go …): `target := args[0]; for _, arg := range args[1:] { BODY }; return t`
+    where BODY either fails the chain (`return nil`) or yields the next target -/
+def goChain (body : Rat → Rat → Option Rat) : Rat → List Rat → Bool
+  | _, [] => true
+  | t, a :: rest =>
+    match body t a with
+    | none => false
+    | some t' => goChain body t' rest
+
+/-- the loop of `=` (pkg/cl/same.go): from the last argument down, `target = same(args[pos], target)` -/
+def goSame (same : Rat → Rat → Option Rat) (xs : List Rat) : Bool :=
+  match xs.reverse with
+  | [] => true
+  | t :: more => goChain (fun t x => same x t) t more
+
+/-- `canonicalNumber` on an exact integer result: a bignum object that fits becomes a fixnum -/
+def canonNumber : Rep → Rep
+  | .big i => canonInt i
+  | .ratio r => canonRat r
+  | x => x
 
 /-- `addFixnums` (pkg/cl/number.go): `sum := x + y; overflow iff (x < sum) != (0 < y)` -/
 def addOk (a b : Int) : Bool := decide (a < addFix a b) == decide (0 < b)
